@@ -189,6 +189,7 @@ impl Report {
         let mut unlisted = 0;
         let mut known_hit: BTreeSet<String> = BTreeSet::new();
         let replay_dir = verif_root().join("replays").join(self.prop);
+        let _ = std::fs::remove_dir_all(&replay_dir);
         let mut out_lines = vec![];
         for (k, v) in &by_key {
             if let Some(kf) = known
